@@ -141,7 +141,7 @@ Proof.
   assert (len (l2 :: l1 :: l0 :: ty :: fl :: s3 :: s2 :: s1 :: s0 :: rest) = 9 + len rest) as LB
     by (unfold len; cbn [length]; lia).
   rewrite LB. clear LB.
-  unfold read_frame_with_size, read_from, handed in *.
+  unfold read_frame_with_size, finish_read, read_from, read_from_gen, handed in *.
   rewrite (len_lt_false (l2 :: l1 :: l0 :: ty :: fl :: s3 :: s2 :: s1 :: s0 :: rest) c_DefaultFrameSize) in *
     by (cbn [length]; change (N.to_nat c_DefaultFrameSize) with 9%nat; lia).
   change (takeN c_DefaultFrameSize (l2 :: l1 :: l0 :: ty :: fl :: s3 :: s2 :: s1 :: s0 :: rest)) with [l2; l1; l0; ty; fl; s3; s2; s1; s0] in *.
